@@ -311,7 +311,7 @@ class ProfileMonitor(Monitor):
                 alts = m.ev_msg(MSGS[name][1]) if m.conn else None
             else:
                 return
-            evkind = name
+            evkind = name if not name.startswith('FZ') else 'FUZZ-' + MSGS[name][1]['kind']
             if alts is None:
                 self.dead = True
                 self.report('model-desync', 'event %s applied by the environment but the model has no %s (model %s, impl %s)'
